@@ -73,6 +73,7 @@ type Frame struct {
 	oldHeaps map[string]string
 	oldAlloc string
 	variant  map[int][]string // loop ordinal -> measure terms at loop head
+	visits   map[*ssa.BasicBlock]int
 	loopSnap map[int]*loopSnapshot // state at the entry of a loop (for atloop(k, e))
 	entryMeasure []string
 	top      bool
@@ -94,6 +95,12 @@ func (f *Frame) clone() *Frame {
 	n.variant = make(map[int][]string, len(f.variant))
 	for k, v := range f.variant {
 		n.variant[k] = v
+	}
+	if f.visits != nil {
+		n.visits = make(map[*ssa.BasicBlock]int, len(f.visits))
+		for k, v := range f.visits {
+			n.visits[k] = v
+		}
 	}
 	if f.loopSnap != nil {
 		n.loopSnap = make(map[int]*loopSnapshot, len(f.loopSnap))
